@@ -632,6 +632,9 @@ impl World {
             }
         }
 
+        if let Some((_, dropped)) = self.last_fx {
+            ctx.class(format!("neighbour_{}.{}", if dropped { "drop" } else { "clone" }, op.name()));
+        }
         // a handle dropped by a callback is gone in the model too, whatever the outcome of the call
         if let Some((slot, true)) = self.last_fx {
             if self.slots[slot as usize].is_none() {
